@@ -143,6 +143,9 @@ class Link(ModelElement):
         if pval is None:
             self.unset_property(pname)
             return
+        if pname == 'name':
+            # a new name must be free in the scope the constructors check
+            self._check_name_unique(pval)
         link_sliver = NetworkLinkSliver()
         link_sliver.set_property(prop_name=pname, prop_val=pval)
         # write into the graph
